@@ -174,6 +174,13 @@ impl<'a> CaseRunner<'a> {
       if kind == "step-bound" {
         fs.push(Finding { prop: "C07", sig: "unbounded-recursion".into(), msg: "the build exceeded the step bound (unbounded recursion through requires)".into(), at });
       }
+      if kind == "overlapping-write" {
+        // "re-execution of the same writer, however it is reached, is never reported as an overlap": in any class
+        let (_, named) = parse_abort(msg);
+        if named.len() >= 2 && named[0] == named[1] {
+          fs.push(Finding { prop: "C06", sig: "writer-overlaps-with-itself".into(), msg: format!("a task's write was reported as overlapping with its own earlier write: {}", msg), at });
+        }
+      }
       if self.opts.wellformed && kind == "overlapping-write" {
         fs.push(Finding { prop: "C06", sig: "false-overlap-in-well-formed-program".into(), msg: format!("a program in which every resource has exactly one writing task aborted with an overlapping-write error (re-execution of the same writer must never be reported as an overlap): {}", msg), at });
       }
